@@ -264,7 +264,9 @@ def run_numbers(ctx, res, env):
                                 f"the lexer reads {sp!r} as {j[0]} {j[1]!r}; Python reads {p!r}",
                                 {"kind": "number", "spelling": sp})
                 else:
-                    check_number_e2e(env, res, sp, p, stats)
+                    # end-to-end on every accepted spelling, except that plain 5-digit decimals are thinned (1 in 7)
+                    if L < 5 or not sp.isdigit() or stats["jinja_one_number"] % 7 == 0:
+                        check_number_e2e(env, res, sp, p, stats)
                     if len(samples) < 6 and ("_" in sp or "e" in sp.lower()) and L >= 3 and stats["jinja_one_number"] % 97 == 0:
                         samples.append({"spelling": sp, "value": repr(p)})
             # tie: model of the lexer + conversion == real lexer + conversion
@@ -829,7 +831,8 @@ def run(ctx, res):
     res.coverage.update({
         "evaluations": evaluations,
         "distinct_nontrivial": ndist + sdist + udist + vdist,
-        "exhaustive": True,
+        "exhaustive": False,
+        "exhaustive_part": f"(a) is a complete enumeration of the {nstats['spellings']} spellings of length 1..{ctx.pick(4, 5)}; (b)-(d) are random",
         "rule": (f"(a) every spelling of length 1..{ctx.pick(4, 5)} over [{ALPHABET}] (exhaustive): real tokeniter+wrap, Python's "
                  "ast.parse, Lean model (tag lexer + int/float conversion) and Lean reference grammar; non-trivial = read as "
                  "one number by at least one of the four; each spelling the lexer reads as a number also goes through "
